@@ -57,8 +57,39 @@ def split_targs(s):
     return out
 
 
-def address_ordered(t):
-    """True iff t is a std set/map whose order or hash is that of a raw pointer key (default comparator / hasher)."""
+_CMP_CACHE = {}
+
+
+def comparator_uses_addresses(F, name):
+    """True iff the call operator of comparator class `name` orders by comparing raw pointers somewhere (a < b on pointer operands)."""
+    if name in _CMP_CACHE:
+        return _CMP_CACHE[name]
+    res = False
+    if name.startswith('std::less<') or name.startswith('std::greater<'):
+        res = name.rstrip('>').rstrip().endswith('*')
+    else:
+        for f in F.find(name + '::operator()'):
+            b = F.body(f)
+            if b is None:
+                continue
+            for x in walk(b['body']):
+                if x.get('k') == 'BinaryOperator' and x.get('op') in ('<', '>', '<=', '>='):
+                    ts = [((strip(c) or {}).get('t') or '') for c in x['c'][:2]]
+                    inner = []
+                    for c in x['c'][:2]:
+                        c0 = c
+                        while c0 is not None and c0.get('k') in ('ImplicitCastExpr', 'ParenExpr') and c0.get('c'):
+                            c0 = c0['c'][0]
+                        inner.append((c0 or {}).get('t') or '')
+                    if all(t.rstrip().endswith('*') for t in inner):
+                        res = True
+    _CMP_CACHE[name] = res
+    return res
+
+
+def address_ordered(t, F=None):
+    """True iff t is a std set/map whose order or hash is that of a raw pointer key: default comparator / hasher, or a
+    user comparator whose call operator compares the pointers themselves."""
     m = PTR_CONT.match((t or '').strip())
     if not m:
         return False
@@ -67,15 +98,49 @@ def address_ordered(t):
         return False
     nkey = 1 if 'set' in kind else 2
     extra = args[nkey:]
-    # a user comparator / hasher makes the order a property of the pointee
-    return not extra
+    if not extra:
+        return True
+    if F is not None and not unordered and comparator_uses_addresses(F, extra[0]):
+        return True
+    return False
 
 
-def container_type(expr):
+def container_type(expr, F=None):
     for y in walk(expr):
         t = y.get('t')
-        if t and address_ordered(t):
+        if t and address_ordered(t, F):
             return t
+    return None
+
+
+DEPENDENT = re.compile(r'^(?:const )?std::(unordered_)?(set|map|multiset|multimap)<\s*([A-Za-z_]\w*)\s*[,>]')
+
+
+def dependent_container(F, f, expr):
+    """range over a parameter of a function template whose key type is a template parameter: resolved through the call sites.
+    Returns the concrete address-ordered type some caller passes, else None."""
+    for y in walk(expr):
+        if y.get('k') == 'DeclRefExpr' and y.get('dk') == 'ParmVar':
+            params = f.get('params') or []
+            idx = next((i for i, p_ in enumerate(params) if p_['di'] == y.get('di')), None)
+            if idx is None:
+                continue
+            m = DEPENDENT.match(params[idx]['t'].strip())
+            if not m or m.group(3) in ('int', 'unsigned', 'long', 'short', 'char', 'bool', 'std', 'nonneg'):
+                continue
+            for g in F.all_fns():
+                if not any(c['f'] == f['id'] for c in g['calls']):
+                    continue
+                b = F.body(g)
+                if b is None:
+                    continue
+                for x in walk(b['body']):
+                    if x.get('k') == 'CallExpr' and x.get('fid') == f['id']:
+                        a = call_args(x)
+                        if idx < len(a):
+                            ct = container_type(a[idx], F)
+                            if ct:
+                                return '%s (passed by %s)' % (ct, g['name'])
     return None
 
 
@@ -111,6 +176,35 @@ def run(ctx):
                         return y
         return None
 
+    def captures_order(n):
+        """the body appends to a sequence container or leaves the loop early (first element in address order wins)"""
+        inner_loops = set()
+        for y in walk(n):
+            if y.get('k') in ('ForStmt', 'WhileStmt', 'DoStmt', 'CXXForRangeStmt', 'SwitchStmt'):
+                for z in walk(y.get('body') or {}):
+                    inner_loops.add(id(z))
+        lambdas = set()
+        for y in walk(n):
+            if y.get('k') == 'LambdaExpr':
+                for z in walk(y.get('body') or {}):
+                    lambdas.add(id(z))
+        for y in walk(n):
+            if y.get('k') == 'CXXMemberCallExpr' and (y.get('fn') or '').split('::')[-1] in ('push_back', 'emplace_back', 'push_front', 'emplace_front'):
+                ot = ''
+                for z in walk(y['c'][0]):
+                    if z.get('t') and ('vector<' in z['t'] or 'list<' in z['t'] or 'deque<' in z['t'] or z['t'] in ('Args',)):
+                        ot = z['t']
+                        break
+                if ot or True:
+                    return 'appends to a sequence container (%s at line %s)' % (y['fn'].split('::')[-1], y['l'])
+            if y.get('k') == 'CallExpr' and y.get('fn') in ('std::back_inserter', 'std::front_inserter'):
+                return 'appends to a sequence container (std::back_inserter at line %s)' % y['l']
+            if y.get('k') == 'BreakStmt' and id(y) not in inner_loops and id(y) not in lambdas:
+                return 'leaves the loop at the first element that satisfies a condition (break at line %s)' % y['l']
+            if y.get('k') == 'ReturnStmt' and id(y) not in lambdas:
+                return 'returns from inside the loop (line %s): the first element in address order decides' % y['l']
+        return None
+
     nloops = 0
     for f in F.all_fns():
         if not f['file'].startswith(('lib/', 'cli/')):
@@ -122,14 +216,14 @@ def run(ctx):
             ct = None
             loop_body = None
             if x.get('k') == 'CXXForRangeStmt' and x.get('range') is not None:
-                ct = container_type(x['range'])
+                ct = container_type(x['range'], F) or dependent_container(F, f, x['range'])
                 loop_body = x.get('body')
             elif x.get('k') == 'ForStmt' and x.get('init') is not None:
                 for d in walk(x['init']):
                     if d.get('k') == 'VarDecl' and d.get('init') is not None:
                         for y in walk(d['init']):
                             if y.get('k') == 'CXXMemberCallExpr' and (y.get('fn') or '').split('::')[-1] in ('begin', 'cbegin'):
-                                ct = container_type(y['c'][0]) or ct
+                                ct = container_type(y['c'][0], F) or ct
                 loop_body = x.get('body')
             if not ct:
                 continue
@@ -144,6 +238,12 @@ def run(ctx):
                 continue
             rep = reports(f, loop_body)
             out = appends_output(loop_body) if F.key(f) in dump_fns else None
+            seq = captures_order(loop_body)
+            if rep is None and out is None and seq is not None:
+                ctx.ob('R29.1', key, False,
+                       '%s iterates %s in address order and the loop body %s: the iteration order is captured in a sequence (or decides which element wins), so '
+                       'everything computed from it - inferred values, findings - depends on where the objects were allocated' % (f['name'], ct, seq), where)
+                continue
             if rep is None and out is None:
                 ctx.ob('R29.1', key, True, '%s iterates %s; the body neither reports nor writes output (order-insensitive)' % (f['name'], ct), where)
                 continue
